@@ -13,6 +13,11 @@ package cache
 //@   trusted
 //@   modifies nothing
 //@
+//@ # what table operations may write: the CONTENT of the open-addressing tables (never their wiring: which
+//@ # segments exist, which map a segment owns), never the stored values themselves
+//@ frame tableContent := heap(UInt64Map[any].size), heap(UInt64Map[any].hasZeroKey), heap(UInt64Map[any].zeroVal), heap(Pair[any].Key), heap(Pair[any].Value), heap(SegmentUInt64Map[any].count)
+//@ frame tableGrow := tableContent, heap(UInt64Map[any].data), heap(UInt64Map[any].mask), heap(UInt64Map[any].growAt)
+//@
 //@ # Table operations touch only the tables' own state (types of this package); the stored values
 //@ # (cache entries), requests and responses are never written. Functional contracts: see C16.
 //@ func (*Cache).Get
@@ -20,10 +25,10 @@ package cache
 //@   modifies nothing
 //@ func (*Cache).Add
 //@   trusted
-//@   modifies pkgheap("internal/cache")
+//@   modifies tableGrow
 //@ func (*Cache).Remove
 //@   trusted
-//@   modifies pkgheap("internal/cache")
+//@   modifies tableContent
 //@
 //@ # ---- C16: segment selection is a function of the key and always lands inside the segment table
 //@ pred segWF(m *SegmentUInt64Map[any]) := m != nil && len(m.segments) > 0 && m.segmentMask == len(m.segments) - 1 && (forall i int :: {m.segments[i]} 0 <= i && i < len(m.segments) ==> m.segments[i] != nil && m.segments[i].data != nil)
@@ -73,6 +78,7 @@ package cache
 //@ # ---- C16: compare-and-swap / compare-and-delete act only when the IDENTICAL current value is present
 //@ func (*Cache).CompareAndSwap
 //@   requires cacheWF(c)
+//@   modifies tableGrow
 //@   ensures result ==> calls("(*internal/cache.UInt64Map[any]).Put") == 1
 //@   ensures !result ==> calls("(*internal/cache.UInt64Map[any]).Put") == 0
 //@   assert at call (*internal/cache.UInt64Map[any]).Put#1: ok && cur == old && arg1 == key && arg2 == value
@@ -80,6 +86,7 @@ package cache
 //@
 //@ func (*Cache).CompareAndDelete
 //@   requires cacheWF(c)
+//@   modifies tableContent
 //@   ensures !result ==> calls("(*sync/atomic.Int64).Add") == 0
 //@   ensures result ==> calls("(*sync/atomic.Int64).Add") == 1 && calls("(*internal/cache.UInt64Map[any]).Del") == 1
 //@   assert at call (*internal/cache.UInt64Map[any]).Del#1: ok && cur == old && arg1 == key
